@@ -32,6 +32,7 @@ GEOMS = {
     "g1_2_2_1": (1, 2, 2, 1), "g1_8_3_2": (1, 8, 3, 2), "g1_64_3_1": (1, 64, 3, 1), "g2_2_1_4": (2, 2, 1, 4),
     "g2_16_4_4": (2, 16, 4, 4), "g4_2_1_1": (4, 2, 1, 1), "g1_128_2_1": (1, 128, 2, 1), "g1_6_4_2": (1, 6, 4, 2),
     "g2_32_3_1": (2, 32, 3, 1),  # string length type narrower than the slot id type
+    "g1_5_2_1": (1, 5, 2, 1), "g1_15_4_2": (1, 15, 4, 2), "g2_255_2_2": (2, 255, 2, 2),  # capacity divides NULL_SLOT
 }
 for _k, _v in GEOMS.items():
     CONFIGS[_k] = geom(*_v)
@@ -345,3 +346,6 @@ PROPS["C10"]["fuzz_max_len"] = 512
 PROPS["C03"]["fuzz_raw_seeds"] = [("extras/fuzzing/json_seed_corpus", [0, 0, 0, 0, 1]), ("extras/fuzzing/msgpack_seed_corpus", [4, 0, 0, 0, 1])]
 PROPS["C03"]["fuzz_dict"] = "corpus/json.dict"
 PROPS["C03"]["fuzz_max_len"] = 700
+
+PROPS["C02"]["quick"].update({"cases": 200000, "floor_evaluations": 300000, "floor_nontrivial": 60000, "require_labels": ["doc-from-history", "doc-from-json", "doc-from-msgpack"]})
+PROPS["C08"]["quick"].update({"cases": 250000, "floor_evaluations": 400000, "floor_nontrivial": 60000, "require_labels": ["doc-from-history", "large-item"]})
